@@ -222,6 +222,11 @@ def body_parse(case, acc):
         return None
     ref = jellyref.decode(data, True, "strict")
     if ref.error is not None:
+        if case["src"]["source"] == "pyjelly":
+            # pyjelly wrote a stream the reference decoder rejects: C03's subject; nothing to cut / stall here
+            if acc is not None:
+                acc.count("source_stream_invalid_skipped")
+            return None
         raise HarnessError(f"source stream invalid: {ref.error}")
     ends = wire.frame_end_offsets(data)
     only_j = case.get("j")
